@@ -43,8 +43,11 @@ class Sched(object):
     def __init__(self, prefix=(), horizon=120.0, max_points=20000, low=(), fine=False):
         self.prefix = list(prefix)
         self.fine = fine
-        self.starve_budget = 0.5    # virtual seconds a starved thread may be held back while others only wait on short polls
+        # virtual seconds a starved thread may be held back while others only wait on short polls: per episode, and in total
+        # per execution (far below every protocol-level timeout, so that starvation never turns into a spurious time-out)
+        self.starve_budget = 0.5
         self.starve_left = self.starve_budget
+        self.starve_total = 4.0
         self.low = tuple(low)       # names of threads that run only when no other thread can (starvation schedules)
         self.threads = []
         self.now = 1000.0
@@ -157,9 +160,10 @@ class Sched(object):
                     # protocol-level timeout, so that starvation never turns into a spurious time-out).
                     polls = [t.deadline for t in self.threads if t.state == 'blocked' and t.deadline is not None and
                              t.name not in self.low and t.deadline - self.now <= 0.0501]
-                    if polls and self.starve_left > 0:
+                    if polls and self.starve_left > 0 and self.starve_total > 0:
                         nxt = max(self.now, min(polls))
                         self.starve_left -= max(nxt - self.now, 1e-3)
+                        self.starve_total -= max(nxt - self.now, 1e-3)
                         self.now = nxt
                         continue
                 # canonical order: the running thread first if still enabled, then ascending ids
